@@ -44,6 +44,7 @@ def run(pid, tier, seed, replay):
     ec.run_validate(chk, hs, "spec-behaviour replay", shards=4 if quick else 12)
     ec.run_validate(chk, scenarios(rng, 1500 if quick else 30000, coro=0.5), "random selection scenarios",
                     shards=4 if quick else 12)
+    ec.nonrtc_leg(chk, rng, 250 if quick else 4000, shards=2 if quick else 8)
     chk.coverage["rule"] = ("family: random small definitions (<=3 states, guards over g1,g2, validators, "
                             "multi-event transitions), all valuations, rtc x allow, known + unknown events; "
                             "random: <=5 states, <=12 transitions, prefix-related event names, both engines")
